@@ -1,4 +1,5 @@
 import Infretis.Lemmas.Config
+import Infretis.Lemmas.ConfigInit
 import Infretis.Props.C10
 /-!
 # C18 — invalid configurations are rejected up front; accepted ones initialise
@@ -7,6 +8,10 @@ Property theorems only (helper lemmas live in `Infretis/Lemmas/Config.lean`).
 Model: `Infretis/Model/Config.lean` (mirrors setup.py `check_config`, the defaults block of
 `setup_config`, and repex.py `initiate_ensembles`, as repaired by /repo commit 729bb50).
 All statements are for configurations of any size (any number of interfaces, moves, engines).
+Extension (Model/ConfigInit.lean): `REPEX_state.cap`, `load_paths`, the part of `add_traj` it uses, `setup_internal`,
+the whole start-up `startUp`, `setup_config` from its two files on (`setupConfigFiles`) and the occupation lists of
+`create_engines` — sections "accepted configurations initialise", "`setup_config` from its two files on",
+"engine instances" below.
 
 History.  Before the repair the code did NOT guarantee `check c = ok → Valid c`: the cap was
 only compared with the first and the last interface, a cap of 0.0 was skipped by truthiness,
@@ -947,5 +952,597 @@ theorem validB_iff (c : Cfg) : validB c = true ↔ Valid c := by
         exact h
 
 example : validB good = true ∧ validB capBelowWf = false ∧ validB capZero = false := by decide
+
+/-! ## accepted configurations initialise: ensembles, W matrix and cap after `setup_internal`
+
+Model: `Infretis/Model/ConfigInit.lean` (`REPEX_state.cap`, `load_paths`, the part of `add_traj` it uses,
+`setup_internal`, and `startUp = setup_config ; setup_internal`).  `calc_cv_vector` is C10's `cvVector`. -/
+section Initialise
+open Infretis.WF
+
+/-- right end of every wire-fencing region: the configured cap (0 included), else the last interface -/
+def rightEnd (c : Cfg) (last : Int) : Int := match c.cap with | some x => x | none => last
+
+/-- the weight vector the property demands for a plus path under the configured interfaces, moves and cap -/
+def specRow (c : Cfg) (ops : List Int) : Option (List Nat) :=
+  match maxOf ops, ops.head?, ops.getLast?, c.interfaces.head?, c.interfaces.getLast? with
+  | some pmax, some first, some last, some i0, some iN =>
+    some (specRowGo ops i0 (rightEnd c iN) pmax first last c.interfaces.dropLast c.moves.tail ++ [0])
+  | _, _, _, _, _ => none
+
+theorem maxOf_some (ops : List Int) (h : ops ≠ []) : ∃ m, maxOf ops = some m := by
+  cases ops with
+  | nil => exact absurd rfl h
+  | cons a t => exact ⟨_, rfl⟩
+
+theorem Valid.head_last {c : Cfg} (hv : Valid c) :
+    ∃ i0 iN, c.interfaces.head? = some i0 ∧ c.interfaces.getLast? = some iN ∧ i0 < iN := by
+  have h2 := hv.two
+  obtain ⟨f, l, hf, hl⟩ := head_last_exist c.interfaces (by intro h; rw [h] at h2; simp at h2)
+  refine ⟨f, l, hf, hl, ?_⟩
+  rw [head?_eq_getElem?] at hf
+  rw [getLast?_eq_getElem?] at hl
+  exact pairwise_lt_getElem hv.sorted (by omega) hf hl
+
+theorem Valid.rightEnd_room {c : Cfg} (hv : Valid c) (i0 iN : Int)
+    (h0 : c.interfaces.head? = some i0) (hN : c.interfaces.getLast? = some iN) :
+    i0 ≤ rightEnd c iN ∧ WfRoom c (rightEnd c iN) := by
+  unfold rightEnd
+  cases hc : c.cap with
+  | none =>
+    obtain ⟨a, b, ha, hb, hab⟩ := hv.head_last
+    rw [h0] at ha; rw [hN] at hb
+    cases ha; cases hb
+    exact ⟨by simp only; omega, default_cap_room c hv iN hN⟩
+  | some x =>
+    obtain ⟨f, l, hf, hl, h1, h2⟩ := hv.capInside x hc
+    rw [h0] at hf; cases hf
+    exact ⟨h1, hv.capRoom x hc⟩
+
+/-- **`calc_cv_vector` on an accepted configuration gives the demanded vector.** -/
+theorem cvVector_eq_specRow (c : Cfg) (hv : Valid c) (ops : List Int) (hne : ops ≠ []) :
+    ∃ row, specRow c ops = some row ∧
+      cvVector ops c.interfaces c.moves.tail (stateCap c) = .ok row ∧
+      row.length = c.interfaces.length := by
+  obtain ⟨pmax, hm⟩ := maxOf_some ops hne
+  obtain ⟨first, last, hf, hl⟩ := head_last_exist ops hne
+  obtain ⟨i0, iN, h0, hN, _⟩ := hv.head_last
+  obtain ⟨h0r, hroom⟩ := hv.rightEnd_room i0 iN h0 hN
+  have hlen : c.interfaces.dropLast.length ≤ c.moves.tail.length := by
+    have := hv.moves
+    simp only [List.length_dropLast, List.length_tail]; omega
+  have hgo := cvVectorGo_eq_spec ops i0 (rightEnd c iN) pmax first last h0r hf hl
+    c.interfaces.dropLast c.moves.tail hlen (by
+      intro k lam hk hmv
+      rw [List.getElem?_dropLast] at hk
+      split at hk
+      · rename_i hk'
+        rw [List.getElem?_tail] at hmv
+        have := hroom (k + 1) lam (by omega) (by omega) hmv (by simpa using hk)
+        omega
+      · cases hk)
+  refine ⟨specRowGo ops i0 (rightEnd c iN) pmax first last c.interfaces.dropLast c.moves.tail ++ [0],
+    by simp only [specRow, hm, hf, hl, h0, hN], ?_, ?_⟩
+  · unfold cvVector stateCap
+    simp only [hm, h0, hN]
+    cases hc : c.cap <;> simp only [rightEnd, hc] at hgo ⊢ <;> rw [hgo]
+  · have h2 := hv.two
+    simp only [List.length_append, List.length_singleton,
+      specRowGo_length ops i0 _ pmax first last _ _ hlen, List.length_dropLast]
+    omega
+
+/-- valid initial paths for `c`: one order sequence per ensemble (`paths[0]` for [0-], `paths[k+1]` for
+    [k+]); every plus path is non-empty and its demanded weight in its own ensemble is not 0 -/
+structure PathsOk (c : Cfg) (paths : List (List Int)) : Prop where
+  enough : c.interfaces.length ≤ paths.length
+  own : ∀ (k : Nat) (ops : List Int), k + 1 < c.interfaces.length → paths[k + 1]? = some ops →
+    ops ≠ [] ∧ ∀ (row : List Nat) (w : Nat), specRow c ops = some row → row[k]? = some w → w ≠ 0
+
+/-- the row of the W matrix `load_paths` must give the [k+] path (fallback `[]` never used under `PathsOk`) -/
+def plusRowOf (c : Cfg) (paths : List (List Int)) (k : Nat) : List Nat :=
+  match paths[k + 1]? with
+  | some ops => (match specRow c ops with | some row => padPlus row | none => [])
+  | none => []
+
+theorem loadPlusOne_spec (c : Cfg) (hv : Valid c) (hl : c.lm1 ≠ .absent) (paths : List (List Int))
+    (hp : PathsOk c paths) (k : Nat) (hk : k + 1 < c.interfaces.length) :
+    loadPlusOne c k paths = .ok (plusRowOf c paths k) := by
+  obtain ⟨ops, hops⟩ : ∃ ops, paths[k + 1]? = some ops := by
+    have := hp.enough
+    exact ⟨paths[k + 1]'(by omega), List.getElem?_eq_getElem (by omega)⟩
+  obtain ⟨hne, hown⟩ := hp.own k ops hk hops
+  obtain ⟨row, hrow, hcv, hlen⟩ := cvVector_eq_specRow c hv ops hne
+  obtain ⟨w, hw⟩ : ∃ w, row[k]? = some w := ⟨row[k]'(by omega), List.getElem?_eq_getElem (by omega)⟩
+  have hw0 := hown row w hrow hw
+  unfold loadPlusOne plusRowOf
+  simp only [hops, hrow, hcv]
+  cases hlm : c.lm1 with
+  | absent => exact absurd hlm hl
+  | off =>
+    cases w with
+    | zero => exact absurd rfl hw0
+    | succ n => simp only [addTraj, padPlus, List.getElem?_cons_succ, hw]
+  | val x =>
+    cases w with
+    | zero => exact absurd rfl hw0
+    | succ n => simp only [addTraj, padPlus, List.getElem?_cons_succ, hw]
+
+/-- the whole W matrix after `load_paths` -/
+def specMatrix (c : Cfg) (paths : List (List Int)) : List (List Nat) :=
+  let n := c.interfaces.length
+  (1 :: List.replicate n 0) :: (List.range' 0 (n - 1)).map (plusRowOf c paths) ++ [List.replicate (n + 1) 0]
+
+theorem loadPaths_eq_specMatrix (c : Cfg) (hv : Valid c) (hl : c.lm1 ≠ .absent) (paths : List (List Int))
+    (hp : PathsOk c paths) : loadPaths c paths = .ok (specMatrix c paths) := by
+  have h2 := hv.two
+  have hplus := loadPlus_ok c paths (plusRowOf c paths) (c.interfaces.length - 1) 0
+    (fun k hk => by
+      simp only [Nat.zero_add]
+      exact loadPlusOne_spec c hv hl paths hp k (by omega))
+  obtain ⟨p0, hp0⟩ : ∃ p0, paths[0]? = some p0 := by
+    have := hp.enough
+    exact ⟨paths[0]'(by omega), List.getElem?_eq_getElem (by omega)⟩
+  unfold loadPaths specMatrix
+  simp only [hplus, hp0, addTraj, padMinus, List.singleton_append, List.getElem?_cons_zero]
+
+
+/-- the [0-] ensemble: `(-inf, λ0, λ0)` starting "R"; with a λ₋₁ `(λ₋₁, (λ₋₁+λ0)/2, λ0)` starting "L" or "R" -/
+def ensMinus (lm1 : Option Int) (i0 : Int) (m0 : Bool) : Ens :=
+  match lm1 with
+  | some x => { left := some (x : Rat), middle := ((x : Rat) + (i0 : Rat)) / 2, right := (i0 : Rat), wf := m0,
+                startL := true, startR := true }
+  | none => { left := none, middle := (i0 : Rat), right := (i0 : Rat), wf := m0, startL := false, startR := true }
+
+/-- the [k+] ensemble on interface `lam`: `(λ0, lam, λ_N)`, starts "L" -/
+def ensPlus (i0 lam iN : Int) (m : Bool) : Ens :=
+  { left := some (i0 : Rat), middle := (lam : Rat), right := (iN : Rat), wf := m, startL := true, startR := false }
+
+/-- **The ensembles of an accepted configuration are the ones the moves rely on.**
+    `initiate_ensembles` raises nothing, creates one ensemble per interface, and
+    * [0-] is `(-inf, λ0, λ0)` starting "R", or with a λ₋₁ `(λ₋₁, (λ₋₁+λ0)/2, λ0)` starting "L" or "R",
+      its move is `shooting_moves[0]`;
+    * [k+] (`k = 0 … n-2`, ensemble number `k+1`) is `(λ0, λ_k, λ_N)`, starts "L", and its move is
+      `shooting_moves[k+1]`. -/
+theorem initEnsembles_spec (c : Cfg) (hv : Valid c) (hl : c.lm1 ≠ .absent) :
+    ∃ (es : List Ens) (i0 iN : Int),
+      c.interfaces.head? = some i0 ∧ c.interfaces.getLast? = some iN ∧
+      initEnsembles c = .ok es ∧ es.length = c.interfaces.length ∧
+      (∀ m0, c.moves[0]? = some m0 →
+        (∀ x, c.lm1 = .val x → es[0]? = some (ensMinus (some x) i0 m0)) ∧
+        (c.lm1 = .off → es[0]? = some (ensMinus none i0 m0))) ∧
+      (∀ (k : Nat) (lam : Int) (m : Bool), k + 1 < c.interfaces.length → c.interfaces[k]? = some lam →
+        c.moves[k + 1]? = some m → es[k + 1]? = some (ensPlus i0 lam iN m)) := by
+  obtain ⟨i0, iN, h0, hN, _⟩ := hv.head_last
+  have h2 := hv.two
+  have hm := hv.moves
+  obtain ⟨ei, hei, heilen⟩ := ensIntfs_ok c.interfaces c.lm1 h2
+  obtain ⟨es, hes, heslen⟩ := mkEns_ok c.lm1.isVal ei c.moves 0 (by omega)
+  have hinit : initEnsembles c = .ok es := by
+    unfold initEnsembles
+    cases hlm : c.lm1 with
+    | absent => exact absurd hlm hl
+    | off => simp only [hlm] at hei hes; simp only [hei, hes]
+    | val x => simp only [hlm] at hei hes; simp only [hei, hes]
+  have hei' := hei
+  simp only [ensIntfs, h0, hN] at hei'
+  injection hei' with hei'
+  refine ⟨es, i0, iN, h0, hN, hinit, by omega, ?_, ?_⟩
+  · intro m0 hm0
+    constructor
+    · intro x hx
+      have := mkEns_getElem? c.lm1.isVal ei c.moves 0 es hes 0 (some (x : Rat))
+        (((x : Rat) + (i0 : Rat)) / 2) (i0 : Rat) m0 (by rw [← hei', hx]; rfl) hm0
+      rw [this, hx]; rfl
+    · intro hoff
+      have := mkEns_getElem? c.lm1.isVal ei c.moves 0 es hes 0 none (i0 : Rat) (i0 : Rat) m0
+        (by rw [← hei', hoff]; rfl) hm0
+      rw [this, hoff]; rfl
+  · intro k lam m hk hlam hmk
+    have hel : ei[k + 1]? = some (some (i0 : Rat), (lam : Rat), (iN : Rat)) := by
+      rw [← hei']
+      simp only [List.getElem?_cons_succ]
+      cases k with
+      | zero =>
+        rw [head?_eq_getElem?] at h0
+        rw [h0] at hlam; cases hlam
+        rfl
+      | succ k =>
+        simp only [List.getElem?_cons_succ, List.getElem?_map, List.getElem?_dropLast,
+          List.length_drop, List.getElem?_drop]
+        rw [if_pos (by omega), show 1 + k = k + 1 by omega, hlam]
+        rfl
+    have := mkEns_getElem? c.lm1.isVal ei c.moves 0 es hes (k + 1) _ _ _ m hel hmk
+    rw [this]
+    simp [ensPlus]
+
+
+
+theorem specRow_getElem? (c : Cfg) (hv : Valid c) (ops : List Int) (row : List Nat)
+    (hrow : specRow c ops = some row) (k : Nat) (lam : Int) (m : Bool)
+    (hk : k + 1 < c.interfaces.length) (hlam : c.interfaces[k]? = some lam) (hm : c.moves[k + 1]? = some m) :
+    ∃ pmax first last i0 iN, maxOf ops = some pmax ∧ ops.head? = some first ∧ ops.getLast? = some last ∧
+      c.interfaces.head? = some i0 ∧ c.interfaces.getLast? = some iN ∧
+      row[k]? = some (specEntry ops i0 (rightEnd c iN) pmax first last lam m) := by
+  unfold specRow at hrow
+  split at hrow
+  · rename_i pmax first last i0 iN hm' hf hl h0 hN
+    simp only [Option.some.injEq] at hrow
+    subst hrow
+    refine ⟨pmax, first, last, i0, iN, hm', hf, hl, h0, hN, ?_⟩
+    have hlen : c.interfaces.dropLast.length ≤ c.moves.tail.length := by
+      have := hv.moves
+      simp only [List.length_dropLast, List.length_tail]; omega
+    have hkl : k < (specRowGo ops i0 (rightEnd c iN) pmax first last c.interfaces.dropLast c.moves.tail).length := by
+      rw [specRowGo_length _ _ _ _ _ _ _ _ hlen, List.length_dropLast]; omega
+    rw [List.getElem?_append_left hkl]
+    apply specRowGo_getElem?
+    · rw [List.getElem?_dropLast, if_pos (by omega)]; exact hlam
+    · rw [List.getElem?_tail]; exact hm
+  · cases hrow
+
+/-- **Own weight of a valid initial path is not 0** (so `add_traj`'s assertion holds):
+    in a shooting ensemble as soon as the path reaches its interface (`λ_k ≤` some frame, equality
+    included); in a wire-fencing ensemble as soon as the first frame at or above `λ_k` lies below
+    the right end (cap, or last interface) of the fence and the path ends outside `[λ_k, right end)`. -/
+theorem own_weight_pos (c : Cfg) (hv : Valid c) (ops : List Int) (row : List Nat)
+    (hrow : specRow c ops = some row) (k : Nat) (lam : Int) (m : Bool) (w : Nat)
+    (hk : k + 1 < c.interfaces.length) (hlam : c.interfaces[k]? = some lam) (hm : c.moves[k + 1]? = some m)
+    (hw : row[k]? = some w)
+    (hsh : m = false → ∃ y ∈ ops, lam ≤ y)
+    (hwf : m = true → ∃ pre x suf last iN, ops = pre ++ x :: suf ∧ pre ≠ [] ∧ (∀ y ∈ pre, y < lam) ∧
+      c.interfaces.getLast? = some iN ∧ lam ≤ x ∧ x < rightEnd c iN ∧
+      ops.getLast? = some last ∧ (last < lam ∨ rightEnd c iN ≤ last)) :
+    w ≠ 0 := by
+  obtain ⟨pmax, first, last, i0, iN, hmax, hf, hl, h0, hN, hent⟩ :=
+    specRow_getElem? c hv ops row hrow k lam m hk hlam hm
+  rw [hent] at hw
+  simp only [Option.some.injEq] at hw
+  subst hw
+  cases m with
+  | false =>
+    have := (maxOf_ge_iff ops pmax lam hmax).2 (hsh rfl)
+    simp [specEntry, this]
+  | true =>
+    obtain ⟨pre, x, suf, last', iN', hops, hpre, hbelow, hN', hx1, hx2, hl', hout⟩ := hwf rfl
+    rw [hN] at hN'; cases hN'
+    have hpos := specWeight_first_crossing_pos lam (rightEnd c iN) pre suf x last' hpre hbelow ⟨hx1, hx2⟩
+      (by rw [← hops]; exact hl') hout
+    rw [← hops] at hpos
+    simp only [specEntry, if_true]
+    split <;> omega
+
+theorem specMatrix_rows (c : Cfg) (paths : List (List Int)) (h2 : 2 ≤ c.interfaces.length) :
+    (specMatrix c paths).length = c.interfaces.length + 1 ∧
+    (specMatrix c paths)[0]? = some (1 :: List.replicate c.interfaces.length 0) ∧
+    (specMatrix c paths)[c.interfaces.length]? = some (List.replicate (c.interfaces.length + 1) 0) ∧
+    ∀ k, k + 1 < c.interfaces.length → (specMatrix c paths)[k + 1]? = some (plusRowOf c paths k) := by
+  obtain ⟨m, hm⟩ : ∃ m, c.interfaces.length = m + 1 := ⟨c.interfaces.length - 1, by omega⟩
+  unfold specMatrix
+  simp only [hm, Nat.add_sub_cancel]
+  refine ⟨by simp, by simp, ?_, ?_⟩
+  · rw [List.getElem?_append_right (by simp)]
+    simp
+  · intro k hk
+    rw [List.getElem?_append_left (by simp; omega)]
+    simp only [List.getElem?_cons_succ]
+    rw [List.getElem?_map, List.getElem?_range' (by omega)]
+    simp
+
+/-- **Accepted configurations initialise (`setup_internal`).**  For a checked configuration and valid
+    initial paths, `setup_internal` raises nothing; the ensembles are those of `initEnsembles_spec`; the cap,
+    interfaces and moves handed to the workers (`md_items`) are the configured ones — the cap is the value of
+    `interface_cap` whatever it is (0 included), `none` only when the key is absent; and the W matrix of the
+    state holds `(1, 0, …)` for the [0-] path, `(0,) +` the demanded weight vector (`specRow`: C10's scan-free
+    wire-fencing weight over `[λ_k, cap)`) for every [k+] path, and zeros for the ghost ensemble. -/
+theorem setupInternal_spec (c : Cfg) (h : check c = .ok ()) (hl : c.lm1 ≠ .absent)
+    (paths : List (List Int)) (hp : PathsOk c paths) :
+    ∃ s, setupInternal c paths = .ok s ∧
+      initEnsembles c = .ok s.ensembles ∧ s.ensembles.length = c.interfaces.length ∧
+      s.cap = c.cap ∧ s.interfaces = c.interfaces ∧ s.moves = c.moves ∧
+      s.matrix.length = c.interfaces.length + 1 ∧
+      s.matrix[0]? = some (1 :: List.replicate c.interfaces.length 0) ∧
+      s.matrix[c.interfaces.length]? = some (List.replicate (c.interfaces.length + 1) 0) ∧
+      ∀ (k : Nat) (ops : List Int) (row : List Nat), k + 1 < c.interfaces.length →
+        paths[k + 1]? = some ops → specRow c ops = some row → s.matrix[k + 1]? = some (0 :: row) := by
+  have hv := accept_sound c h
+  obtain ⟨es, hes, hlen⟩ := accepted_initialises c h hl
+  have hload := loadPaths_eq_specMatrix c hv hl paths hp
+  obtain ⟨m1, m2, m3, m4⟩ := specMatrix_rows c paths hv.two
+  refine ⟨{ ensembles := es, matrix := specMatrix c paths, cap := stateCap c,
+            interfaces := c.interfaces, moves := c.moves }, ?_, hes, hlen, rfl, rfl, rfl, m1, m2, m3, ?_⟩
+  · simp only [setupInternal, hes, hload]
+  · intro k ops row hk hops hrow
+    simp only [m4 k hk, plusRowOf, hops, hrow, padPlus]
+
+theorem normalise_lm1 (c : Cfg) : (normalise c).lm1 ≠ .absent := by
+  cases h : c.lm1 <;> simp [normalise, h]
+
+/-- **The whole start-up: `setup_config` then `setup_internal`.**  Whatever `setup_config` accepts
+    initialises: no error, one ensemble per interface, the configured cap / interfaces / moves in `md_items`
+    (those of the input file: the defaults block does not touch them), and the demanded W matrix. -/
+theorem accepted_starts_up (c0 c : Cfg) (h : setupConfig c0 = .ok c) (paths : List (List Int))
+    (hp : PathsOk c paths) :
+    ∃ s, startUp c0 paths = .ok s ∧ s.ensembles.length = c0.interfaces.length ∧
+      s.cap = c0.cap ∧ s.interfaces = c0.interfaces ∧ s.moves = c0.moves ∧
+      s.matrix.length = c0.interfaces.length + 1 ∧
+      ∀ (k : Nat) (ops : List Int) (row : List Nat), k + 1 < c0.interfaces.length →
+        paths[k + 1]? = some ops → specRow c ops = some row → s.matrix[k + 1]? = some (0 :: row) := by
+  obtain ⟨hc, _, _⟩ := setup_accept_sound c0 c h
+  have hchk : check c = .ok () := by
+    unfold setupConfig at h
+    cases hcc : check (normalise c0) with
+    | error e => simp [hcc] at h
+    | ok u => cases u; rw [hc]; exact hcc
+  have hl : c.lm1 ≠ .absent := by rw [hc]; exact normalise_lm1 c0
+  obtain ⟨s, hs, _, h2, h3, h4, h5, h6, _, _, h9⟩ := setupInternal_spec c hchk hl paths hp
+  have hi : c.interfaces = c0.interfaces := by rw [hc]; rfl
+  have hcap : c.cap = c0.cap := by rw [hc]; rfl
+  have hmv : c.moves = c0.moves := by rw [hc]; rfl
+  refine ⟨s, by simp only [startUp, h, hs], by rw [h2, hi], by rw [h3, hcap], by rw [h4, hi], by rw [h5, hmv],
+    by rw [h6, hi], ?_⟩
+  intro k ops row hk
+  exact h9 k ops row (by rw [hi]; exact hk)
+
+/-! ### concrete cases: a cap of 0 is a cap; a path that jumps over the fence -/
+
+/-- interfaces [-4,-2,0,2] (code units doubled), wire fencing in [0+] and [1+], cap 0 — accepted -/
+def capZeroWf : Cfg :=
+  { good with
+    interfaces := [-4, -2, 0, 4], workers := 1, moves := [false, true, true, false], cap := some 0,
+    lm1 := .off, ensEngines := some [["engine"], ["engine"], ["engine"], ["engine"]] }
+
+/-- its initial paths: [1+] goes over the cap, comes back to λ1, goes over it again and returns -/
+def capZeroPaths : List (List Int) :=
+  [[-4, -5, -4], [-5, -4, -3, -5], [-5, -3, -1, 1, -1, -2, -1, 1, -1, -3, -5], [-5, -3, -1, 1, 4]]
+
+/-- **A cap of 0 is a cap.**  The accepted configuration with `interface_cap = 0` starts up with
+    `md_items["cap"] = 0` and the wire-fencing weights counted over `[λ_k, 0)`; the same configuration
+    without the key counts over `[λ_k, λ_N)` and gets a different matrix. -/
+theorem cap_zero_is_a_cap :
+    check capZeroWf = .ok () ∧
+    (setupInternal capZeroWf capZeroPaths).map (fun s => (s.cap, s.matrix)) =
+      .ok (some 0, [[1, 0, 0, 0, 0], [0, 2, 0, 0, 0], [0, 4, 2, 1, 0], [0, 4, 2, 1, 0], [0, 0, 0, 0, 0]]) ∧
+    (setupInternal { capZeroWf with cap := none } capZeroPaths).map (fun s => (s.cap, s.matrix)) =
+      .ok (none, [[1, 0, 0, 0, 0], [0, 2, 0, 0, 0], [0, 9, 7, 1, 0], [0, 6, 4, 1, 0], [0, 0, 0, 0, 0]]) := by
+  decide
+
+/-- wire fencing in [1+] of [0,2,4] without a cap; the [1+] path -1, 1, 5 crosses λ1 = 2 between two frames
+    and ends right of λ2 = 4 (a valid L→R path by `Path.check_interfaces`) but has no frame inside [2, 4) -/
+def jumpCfg : Cfg := { good with workers := 1, cap := none, lm1 := .off }
+def jumpPaths : List (List Int) := [[0, -1, 0], [-1, 0, -1], [-1, 1, 5]]
+
+/-- **What `PathsOk` excludes.**  An accepted configuration with a wire-fencing ensemble and an initial
+    path that steps over the whole fence `[λ_k, right end)`: its wire-fencing weight is 0 and `add_traj`'s
+    `assert valid[ens] != 0` fails (AssertionError, no configuration error).  As a shooting ensemble the same
+    path has weight 1 and the start-up succeeds. -/
+theorem wf_jump_over_fence_witness :
+    check jumpCfg = .ok () ∧ specRow jumpCfg [-1, 1, 5] = some [1, 0, 0] ∧
+    setupInternal jumpCfg jumpPaths = .error .assert ∧
+    (setupInternal { jumpCfg with moves := [false, false, false] } jumpPaths).map (fun s => s.matrix) =
+      .ok [[1, 0, 0, 0], [0, 1, 0, 0], [0, 1, 1, 0], [0, 0, 0, 0]] := by
+  decide
+
+/-- **Invalid configurations never reach the initialisation.**  The start-up (`setup_config` then
+    `setup_internal`) of a configuration whose normalised form is invalid stops with a TOMLConfigError,
+    whatever the initial paths are. -/
+theorem startUp_invalid_rejected (c0 : Cfg) (paths : List (List Int)) (hinv : ¬ Valid (normalise c0)) :
+    startUp c0 paths = .error (.cfg .config) := by
+  simp only [startUp, setup_invalid_rejected c0 hinv]
+
+example : ¬ Valid (normalise capBelowWf) ∧ startUp capBelowWf [] = .error (.cfg .config) := by
+  refine ⟨?_, by decide⟩
+  intro hv
+  have := hv.capRoom 1 rfl 2 2 (by decide) (by decide) (by decide) (by decide)
+  omega
+
+/-! ### non-vacuity: the hypotheses of the initialisation theorems hold on `capZeroWf` / `capZeroPaths` -/
+
+theorem capZero_pathsOk : PathsOk capZeroWf capZeroPaths := by
+  refine ⟨by decide, ?_⟩
+  intro k ops hk hops
+  have hk' : k < 3 := by
+    have : capZeroWf.interfaces.length = 4 := by decide
+    omega
+  match k, hk', hops with
+  | 0, _, hops =>
+    have : ops = [-5, -4, -3, -5] := by simpa [capZeroPaths] using hops.symm
+    subst this
+    refine ⟨by decide, ?_⟩
+    intro row w hrow hw
+    have hs : specRow capZeroWf [-5, -4, -3, -5] = some [2, 0, 0, 0] := by decide
+    rw [hs] at hrow; cases hrow
+    simp at hw; omega
+  | 1, _, hops =>
+    have : ops = [-5, -3, -1, 1, -1, -2, -1, 1, -1, -3, -5] := by simpa [capZeroPaths] using hops.symm
+    subst this
+    refine ⟨by decide, ?_⟩
+    intro row w hrow hw
+    have hs : specRow capZeroWf [-5, -3, -1, 1, -1, -2, -1, 1, -1, -3, -5] = some [4, 2, 1, 0] := by decide
+    rw [hs] at hrow; cases hrow
+    simp at hw; omega
+  | 2, _, hops =>
+    have : ops = [-5, -3, -1, 1, 4] := by simpa [capZeroPaths] using hops.symm
+    subst this
+    refine ⟨by decide, ?_⟩
+    intro row w hrow hw
+    have hs : specRow capZeroWf [-5, -3, -1, 1, 4] = some [4, 2, 1, 0] := by decide
+    rw [hs] at hrow; cases hrow
+    simp at hw; omega
+
+example : Valid capZeroWf ∧ ([-5, -3, -1, 1, 4] : List Int) ≠ [] := ⟨accept_sound _ (by decide), by decide⟩
+example : Valid capZeroWf ∧ capZeroWf.lm1 ≠ .absent := ⟨accept_sound _ (by decide), by decide⟩
+example : check capZeroWf = .ok () ∧ capZeroWf.lm1 ≠ .absent ∧ PathsOk capZeroWf capZeroPaths :=
+  ⟨by decide, by decide, capZero_pathsOk⟩
+example : setupConfig { capZeroWf with ensEngines := none, lm1 := .absent } = .ok capZeroWf ∧
+    PathsOk capZeroWf capZeroPaths := ⟨by decide, capZero_pathsOk⟩
+/-- `own_weight_pos`, wire-fencing case: the [1+] path's first frame at or above λ1 = -2 is -1 < cap 0 -/
+example : ([-5, -3, -1, 1, 4] : List Int) = [-5, -3] ++ (-1) :: [1, 4] ∧ (∀ y ∈ ([-5, -3] : List Int), y < -2) ∧
+    capZeroWf.interfaces.getLast? = some 4 ∧ (-2 : Int) ≤ -1 ∧ (-1 : Int) < rightEnd capZeroWf 4 ∧
+    rightEnd capZeroWf 4 ≤ 4 ∧ capZeroWf.moves[1 + 1]? = some true ∧ capZeroWf.interfaces[1]? = some (-2) := by
+  decide
+
+end Initialise
+
+/-! ## `setup_config` from its two files on -/
+
+/-- **Which file is read.**  The restart file replaces the input file only when the two paths differ, it exists,
+    and every top-level table of the input file equals the restart file's table of that name (a table missing in
+    the restart file counts as the empty table); otherwise the input file is used. -/
+theorem chooseFile_spec (inp : TomlFile) (samePath : Bool) (re : Option TomlFile) :
+    (chooseFile inp samePath re = inp) ∨
+    (∃ r, samePath = false ∧ re = some r ∧ chooseFile inp samePath re = r ∧
+      ∀ kv ∈ inp.sections, (r.sections.lookup kv.1 = some kv.2) ∨ (r.sections.lookup kv.1 = none ∧ kv.2 = 0)) := by
+  unfold chooseFile
+  cases samePath with
+  | true => left; rfl
+  | false =>
+    cases re with
+    | none => left; rfl
+    | some r =>
+      by_cases h : sectionsEqual inp.sections r.sections = true
+      · right
+        refine ⟨r, rfl, rfl, by simp [h], ?_⟩
+        intro kv hkv
+        unfold sectionsEqual at h
+        have := (List.all_eq_true.1 h) kv hkv
+        cases hl : r.sections.lookup kv.1 with
+        | none => right; simp [hl] at this; exact ⟨rfl, this.symm⟩
+        | some v => left; simp [hl] at this; rw [this]
+      · left; simp [h]
+
+/-- a restart file the library wrote for `good`, and the input file it came from -/
+def goodInput : TomlFile :=
+  { sections := [("runner", 1), ("simulation", 2), ("engine", 3), ("notes", 0)], cfg := good, pattern := false,
+    current := none }
+def goodRestart : TomlFile :=
+  { sections := [("runner", 1), ("simulation", 2), ("engine", 3), ("current", 4)], cfg := good, pattern := false,
+    current := some { cstep := 3, restartedFrom := some 0, steps := 10, pathsPresent := true } }
+
+example : chooseFile goodInput false (some goodRestart) = goodRestart ∧
+    chooseFile { goodInput with sections := [("runner", 9)] } false (some goodRestart)
+      = { goodInput with sections := [("runner", 9)] } ∧
+    chooseFile goodInput true (some goodRestart) = goodInput := by decide
+
+/-- **Whatever `setup_config` returns is valid — whichever of the two files it read —, and a fresh start gets a
+    `[current]` table for exactly one path per interface**: `size = traj_num = len(interfaces)`,
+    `active = 0 … size-1`, `cstep = 0` (what `REPEX_state` and `load_paths` size the W matrix with). -/
+theorem setupConfigFiles_sound (inp : Option TomlFile) (samePath : Bool) (re : Option TomlFile) (o : SetupOut)
+    (h : setupConfigFiles inp samePath re = .ok (some o)) :
+    Valid o.cfg ∧ check o.cfg = .ok () ∧ EnginesCover o.cfg ∧
+    ∃ fi, inp = some fi ∧ o.cfg = normalise (chooseFile fi samePath re).cfg ∧
+      (∀ cur, o.fresh = some cur →
+        (chooseFile fi samePath re).current = none ∧ cur.size = o.cfg.interfaces.length ∧
+        cur.trajNum = cur.size ∧ cur.active = List.range cur.size ∧ cur.cstep = 0 ∧ o.wroteHeader = true) ∧
+      (o.fresh = none → ∃ r, (chooseFile fi samePath re).current = some r ∧ o.restartedFrom = some r.cstep ∧
+        o.wroteHeader = false) := by
+  unfold setupConfigFiles at h
+  cases inp with
+  | none => simp at h
+  | some fi =>
+    simp only at h
+    cases hs : setupFile (chooseFile fi samePath re).cfg (chooseFile fi samePath re).current with
+    | error e => simp [hs] at h
+    | ok oc =>
+      cases oc with
+      | none => simp [hs] at h
+      | some c' =>
+        obtain ⟨h1, h2, h3, h4⟩ := setup_config_validates_both_branches _ c' _ hs
+        simp only [hs] at h
+        cases hc : (chooseFile fi samePath re).current with
+        | none =>
+          simp only [hc, Except.ok.injEq, Option.some.injEq] at h
+          subst h
+          refine ⟨h3, h2, h4, fi, rfl, h1, ?_, ?_⟩
+          · intro cur hcur
+            simp only [Option.some.injEq] at hcur
+            subst hcur
+            refine ⟨hc, ?_, rfl, rfl, rfl, rfl⟩
+            simp only [h1]
+            rfl
+          · intro hf; simp at hf
+        | some r =>
+          simp only [hc, Except.ok.injEq, Option.some.injEq] at h
+          subst h
+          refine ⟨h3, h2, h4, fi, rfl, h1, ?_, ?_⟩
+          · intro cur hcur; simp at hcur
+          · intro _; exact ⟨r, hc, rfl, rfl⟩
+
+example : setupConfigFiles (some goodInput) false (some goodRestart) =
+    .ok (some { cfg := good, fresh := none, restartedFrom := some 3, wroteHeader := false, patternFile := false }) ∧
+  setupConfigFiles (some goodInput) false none =
+    .ok (some { cfg := good, restartedFrom := none, wroteHeader := true, patternFile := false,
+                fresh := some { trajNum := 3, cstep := 0, active := [0, 1, 2], size := 3, restartedFrom := none } }) := by
+  decide
+
+/-- **Invalid configurations are rejected whichever file is read**: if the normalised configuration of the file
+    `setup_config` reads is invalid, it raises a TOMLConfigError — or, on the restart branch only, stops with `None`
+    (nothing starts); a missing input file gives `None`. -/
+theorem setupConfigFiles_invalid_rejected (fi : TomlFile) (samePath : Bool) (re : Option TomlFile)
+    (hinv : ¬ Valid (normalise (chooseFile fi samePath re).cfg)) :
+    setupConfigFiles (some fi) samePath re = .error .config ∨
+    ((chooseFile fi samePath re).current ≠ none ∧ setupConfigFiles (some fi) samePath re = .ok none) := by
+  unfold setupConfigFiles
+  rcases setup_invalid_rejected_both_branches _ (chooseFile fi samePath re).current hinv with h | ⟨h1, h2⟩
+  · left; simp only [h]
+  · right; exact ⟨h1, by simp only [h2]⟩
+
+example : ¬ Valid (normalise (chooseFile { goodInput with cfg := capBelowWf } false none).cfg) ∧
+    setupConfigFiles (some { goodInput with cfg := capBelowWf }) false none = .error .config := by
+  refine ⟨?_, by decide⟩
+  intro hv
+  have := hv.capRoom 1 rfl 2 2 (by decide) (by decide) (by decide) (by decide)
+  omega
+
+/-- **Re-reading a restart file is a fixed point.**  If `setup_config` returned `o`, then a restart file carrying
+    `o`'s configuration (as `write_toml` writes it) and a `[current]` table that goes on is read back — directly or
+    next to an input file whose tables it matches — to the very same configuration. -/
+theorem restart_file_fixed_point (inp : Option TomlFile) (samePath : Bool) (re : Option TomlFile) (o : SetupOut)
+    (h : setupConfigFiles inp samePath re = .ok (some o))
+    (secs : List (String × Nat)) (pat : Bool) (cur : Restart)
+    (hgo : cur.finished = false) (hp : cur.pathsPresent = true) :
+    setupConfigFiles (some { sections := secs, cfg := o.cfg, pattern := pat, current := some cur }) true none =
+      .ok (some { cfg := o.cfg, fresh := none, restartedFrom := some cur.cstep, wroteHeader := false,
+                  patternFile := false }) := by
+  obtain ⟨_, hchk, _, _⟩ := setupConfigFiles_sound inp samePath re o h
+  obtain ⟨fi, _, hcfg, _, _⟩ := (setupConfigFiles_sound inp samePath re o h).2.2.2
+  have hfix : setupConfig o.cfg = .ok o.cfg := by
+    unfold setupConfig
+    rw [hcfg, normalise_idempotent, ← hcfg, hchk]
+  have hsf : setupFile o.cfg (some cur) = .ok (some o.cfg) := by
+    simp [setupFile, hgo, hp, hfix]
+  unfold setupConfigFiles
+  simp only [show ∀ f : TomlFile, chooseFile f true none = f from fun _ => rfl, hsf]
+
+example : (⟨3, some 0, 10, true⟩ : Restart).finished = false := by decide
+
+
+/-! ## engine instances (`create_engines`) -/
+
+/-- **Every engine an accepted configuration refers to gets its instances.**  `create_engines` raises nothing
+    and gives every engine name referenced by an ensemble `min(number of ensembles naming it, workers)` occupation
+    slots — at least one as soon as there is a worker, never more than the workers. -/
+theorem engineOcc_spec (c : Cfg) (h : check c = .ok ()) :
+    ∃ occ, engineOcc c = .ok occ ∧
+      ∀ ee, c.ensEngines = some ee → ∀ names ∈ ee, ∀ e ∈ names,
+        ∃ n k, 1 ≤ n ∧ (engineCount ee).lookup e = some n ∧ occ.lookup e = some k ∧
+          (k : Int) = max 0 (min (n : Int) c.workers) ∧ (1 ≤ c.workers → 1 ≤ k) := by
+  have hv := accept_sound c h
+  obtain ⟨ee, hee, hdef⟩ := hv.engines
+  have hall : ∀ k n, (k, n) ∈ engineCount ee → (c.engines.lookup k).isSome = true := by
+    intro k n hk
+    obtain ⟨names, hn, hkn⟩ := engineCount_keys ee k n hk
+    exact hdef names hn k hkn
+  refine ⟨_, by simp only [engineOcc, hee]; exact occGo_ok c _ hall, ?_⟩
+  intro ee' hee' names hn e he
+  rw [hee] at hee'; cases hee'
+  obtain ⟨n, hn1, hl⟩ := engineCount_lookup ee names e hn he
+  refine ⟨n, (min (n : Int) c.workers).toNat, hn1, hl, ?_, ?_, ?_⟩
+  · rw [lookup_map_snd (fun m => (min (m : Int) c.workers).toNat), hl]; rfl
+  · omega
+  · intro hw; omega
+
+example : check good = .ok () ∧ engineOcc good = .ok [("engine", 2)] ∧
+    engineOcc { good with workers := 0 } = .ok [("engine", 0)] := by decide
+
 
 end Infretis.C18
